@@ -265,11 +265,11 @@ func (in *Interp) installStubs4() {
 		if n < 0 {
 			in.panicf("strings: negative Repeat count")
 		}
-		if s.Len()*n > 1<<16 {
-			abortf("unsupported: strings.Repeat result larger than 64 KiB")
-		}
-		if s.B == nil {
+		if s.B == nil && s.Len()*n <= 1<<22 {
 			return Str{S: strings.Repeat(s.S, n)}
+		}
+		if s.Len()*n > 1<<16 {
+			abortf("unsupported: strings.Repeat of symbolic bytes larger than 64 KiB")
 		}
 		var out []*smt.Term
 		for i := 0; i < n; i++ {
